@@ -134,6 +134,11 @@ def run_case(ctx, res, case, lines, post):
              {'case': {k: v for k, v in case.items() if k != 'fseed'}, 'history': hlist, 'mode': mode})
 
 
+def fallback_oracle(ctx, res, post):
+    """the Lean driver (which also supplies the exact analytic derivatives) is unavailable: nothing further to judge"""
+    return res
+
+
 def run(ctx: core.Ctx, only=None) -> core.Result:
     res = core.Result()
     res.rule = ('real Components (1-3 inputs, multi-output, random domains/normalisations, random admissible histories) on '
@@ -145,13 +150,18 @@ def run(ctx: core.Ctx, only=None) -> core.Result:
     lines, post = [], []
     keys = ('nin', 'alpha_lim', 'beta_lim', 'kpl', 'nout', 'domains', 'norms_in', 'norms_out', 'nsteps', 'fseed', 'poly',
             'kind')
-    cases = [o.get('input', o) for o in only] if only is not None else [gen_case(ctx.rng) for _ in range(ctx.scale(14, 150))]
+    cases = [o.get('input', o) for o in only] if only is not None else core.corpus_cases(ctx.prop) + [gen_case(ctx.rng) for _ in range(ctx.scale(14, 150))]
     for case in cases:
         case = {k: (tuple(case[k]) if k in ('alpha_lim', 'beta_lim') else case[k]) for k in keys}
         run_case(ctx, res, case, lines, post)
-    tol_out = core.run_driver(['itp.snaptol 1'])[0]
+    t = core.try_driver(['itp.snaptol 1'], res, 'Gen.snapTol')
+    if t is None:
+        return fallback_oracle(ctx, res, post)
+    tol_out = t[0]
     lines = [ln.replace(' TOL ', f' {tol_out} ') for ln in lines]
-    out = core.run_driver(lines)
+    out = core.try_driver(lines, res, 'Amisc.predictT/gradT/hessT')
+    if out is None:
+        return fallback_oracle(ctx, res, post)
     cur = None
     unstable = 0
     for pst, o in zip(post, out):
